@@ -75,6 +75,16 @@ macro_rules! rec_stubs {
     };
 }
 
+macro_rules! honestkey_stubs {
+    ($(#[$m:meta])* fn $name:ident() $body:block) => {
+        adss_stubs! {
+            #[kani::stub(star_sharks::Sharks::recover, sharks_recover_honest_key)]
+            $(#[$m])*
+            fn $name() $body
+        }
+    };
+}
+
 macro_rules! anykey_stubs {
     ($(#[$m:meta])* fn $name:ident() $body:block) => {
         adss_stubs! {
@@ -147,111 +157,61 @@ rec_stubs! { #[kani::unwind(5)] fn c16_threshold_zero() { threshold_zero() } }
 // ---------------------------------------------------------------------------
 // C05: one field of the ciphertext-supplying share altered
 // ---------------------------------------------------------------------------
-/// honest threshold-1 sharing of (m, r); the encoded share is altered in the byte range
-/// [lo, hi) to arbitrary different content and decoded again; recovery returns an error or
-/// exactly m; `must_reject`: the altered field is bound by the MAC, so always an error.
-/// `any_key`: interpolation is replaced by an arbitrary result (covers every mixture of
-/// foreign / altered points supplying the key).
-fn fault(lo: usize, hi: usize, must_reject: bool) {
+/// honest threshold-1 sharing of (m, r); exactly one field of the ciphertext-supplying
+/// share — which = 0: threshold, 1: encrypted message C, 2: encrypted coins D, 3: tag J —
+/// is replaced by arbitrary different content of the same length (this subsumes every bit
+/// or byte fault at every position); built through the cfg(kani) hook
+/// `Share::verif_from_parts`, no byte encoding involved.  Threshold fault: the Shamir layer
+/// is an arbitrary function (rejected whatever key comes back).  C / D / J faults: the
+/// Shamir layer returns the honest key (single-field fault).  Altered points / values
+/// (x, y) only change the key and are covered by `c05_any_interpolated_key`.
+fn fault(which: u8) {
     let m: [u8; 2] = kani::any();
     let r: [u8; 2] = kani::any();
-    let nbs: [u8; 64] = kani::any();
+    let nt: u32 = kani::any();
+    let nc: [u8; 2] = kani::any();
+    let nj: [u8; 64] = kani::any();
     ro_reset();
     let sh = adss::Commune::new(1, m.to_vec(), r.to_vec(), None).share().unwrap();
-    core::mem::forget(sh);
-    // The encoded share, assembled on the stack from the permutation log: this is exactly
-    // what `share()` + `to_bytes()` produce (obligation c16_structure_*), without dragging
-    // the heap copies of the encoder through the model checker.
-    // layout (ml = rl = 2): A 0..4 | len 4..8 | x 8..32 | y 32..56 | len 56..60 | C 60..62 | len 62..66 | D 66..68 | J 68..132
-    let mut e = [0u8; 132];
-    e[0] = 1;
-    e[4] = 48;
-    let x = unsafe { FP_RANDOM_LOG[0] };
-    e[8..16].copy_from_slice(&x[0].to_le_bytes());
-    e[16..24].copy_from_slice(&x[1].to_le_bytes());
-    e[24..32].copy_from_slice(&x[2].to_le_bytes());
-    e[32..40].copy_from_slice(&unsafe { RO_OUT[3][0] }.to_le_bytes());
-    e[40..48].copy_from_slice(&unsafe { RO_OUT[3][1] }.to_le_bytes());
-    e[56] = 2;
-    e[60] = m[0] ^ out_byte(6, 0);
-    e[61] = m[1] ^ out_byte(6, 1);
-    e[62] = 2;
-    e[66] = r[0] ^ out_byte(7, 0);
-    e[67] = r[1] ^ out_byte(7, 1);
-    let mut i = 0;
-    while i < 64 {
-        e[68 + i] = out_byte(2, i);
-        i += 1;
-    }
-    let mut changed = false;
-    let mut i = lo;
-    while i < hi {
-        let nb: u8 = nbs[i - lo];
-        changed |= nb != e[i];
-        e[i] = nb;
-        i += 1;
-    }
-    kani::assume(changed);
-    let f = adss::Share::from_bytes(&e[..]);
-    if let Some(fs) = f {
-        let v = [fs];
-        let c = adss::recover(&v);
-        if let Ok(cm) = &c {
-            assert!(!must_reject, "an altered threshold / ciphertext / coins / tag is always rejected");
-            let got = cm.get_message();
-            assert!(got.len() == 2 && got[0] == m[0] && got[1] == m[1], "recovery never returns another message");
-            kani::cover!(true, "accepted with the original message");
-            core::mem::forget(got);
-        } else {
-            kani::cover!(true, "rejected");
+    let (t, s, c, d, j) = sh.verif_parts();
+    assert!(t == 1 && c.len() == 2 && d.len() == 2);
+    let f = match which {
+        0 => {
+            kani::assume(nt != t);
+            adss::Share::verif_from_parts(nt, s.clone(), c.to_vec(), d.to_vec(), *j)
         }
-        core::mem::forget((v, c));
-    }
+        1 => {
+            kani::assume(nc[0] != c[0] || nc[1] != c[1]);
+            adss::Share::verif_from_parts(t, s.clone(), nc.to_vec(), d.to_vec(), *j)
+        }
+        2 => {
+            kani::assume(nc[0] != d[0] || nc[1] != d[1]);
+            adss::Share::verif_from_parts(t, s.clone(), c.to_vec(), nc.to_vec(), *j)
+        }
+        _ => {
+            let mut diff = false;
+            let mut i = 0;
+            while i < 64 {
+                diff |= nj[i] != j[i];
+                i += 1;
+            }
+            kani::assume(diff);
+            adss::Share::verif_from_parts(t, s.clone(), c.to_vec(), d.to_vec(), nj)
+        }
+    };
+    let v = [f];
+    let c2 = adss::recover(&v);
+    assert!(c2.is_err(), "an altered threshold / encrypted message / encrypted coins / tag of the ciphertext-supplying share is always rejected");
+    kani::cover!(true, "rejected");
+    core::mem::forget((v, c2, sh));
 }
-/// the unaltered assembled encoding recovers (vacuity / faithfulness witness of `fault`)
-fn fault_none() {
-    let m: [u8; 2] = kani::any();
-    let r: [u8; 2] = kani::any();
-    ro_reset();
-    let sh = adss::Commune::new(1, m.to_vec(), r.to_vec(), None).share().unwrap();
-    let real = sh.to_bytes();
-    let mut e = [0u8; 132];
-    e[0] = 1;
-    e[4] = 48;
-    let x = unsafe { FP_RANDOM_LOG[0] };
-    e[8..16].copy_from_slice(&x[0].to_le_bytes());
-    e[16..24].copy_from_slice(&x[1].to_le_bytes());
-    e[24..32].copy_from_slice(&x[2].to_le_bytes());
-    e[32..40].copy_from_slice(&unsafe { RO_OUT[3][0] }.to_le_bytes());
-    e[40..48].copy_from_slice(&unsafe { RO_OUT[3][1] }.to_le_bytes());
-    e[56] = 2;
-    e[60] = m[0] ^ out_byte(6, 0);
-    e[61] = m[1] ^ out_byte(6, 1);
-    e[62] = 2;
-    e[66] = r[0] ^ out_byte(7, 0);
-    e[67] = r[1] ^ out_byte(7, 1);
-    let mut i = 0;
-    while i < 64 {
-        e[68 + i] = out_byte(2, i);
-        i += 1;
-    }
-    assert!(real.len() == 132);
-    let mut i = 0;
-    while i < 132 {
-        assert!(real[i] == e[i], "the assembled encoding is the real encoding of the share");
-        i += 1;
-    }
-    kani::cover!(true, "reached");
-    core::mem::forget((sh, real));
-}
-rec_stubs! { #[kani::unwind(5)] fn c05_fault_model_faithful() { fault_none() } }
-// The Shamir layer is an arbitrary function here (`sharks_recover_any_key`): an altered
-// threshold / C / D / J must be rejected *whatever* key interpolation yields, and altered
-// points or values (x, y) only change that key, which `c05_any_interpolated_key` covers.
-anykey_stubs! { #[kani::unwind(5)] fn c05_fault_threshold() { fault(0, 4, true) } }
-anykey_stubs! { #[kani::unwind(5)] fn c05_fault_c() { fault(60, 62, true) } }
-anykey_stubs! { #[kani::unwind(5)] fn c05_fault_d() { fault(66, 68, true) } }
-anykey_stubs! { #[kani::unwind(5)] fn c05_fault_j() { fault(68, 132, true) } }
+anykey_stubs! { #[kani::unwind(5)] fn c05_fault_threshold() { fault(0) } }
+// single-field faults of C / D / J: the key path is untouched, so interpolation yields the
+// honest key (with an attacker-chosen key *and* a matching tag the attacker would simply
+// present a consistent sharing of his own: that is two altered fields)
+honestkey_stubs! { #[kani::unwind(5)] fn c05_fault_c() { fault(1) } }
+honestkey_stubs! { #[kani::unwind(5)] fn c05_fault_d() { fault(2) } }
+honestkey_stubs! { #[kani::unwind(5)] fn c05_fault_j() { fault(3) } }
 
 /// the key supplied by interpolation is arbitrary (any mixture of foreign / altered /
 /// surplus points): recovery still returns an error or exactly the first share's message
@@ -274,36 +234,22 @@ fn any_key() {
 }
 anykey_stubs! { #[kani::unwind(5)] fn c05_any_interpolated_key() { any_key() } }
 
-/// fewer than threshold distinct shares: `adss::recover` propagates the refusal of the
-/// Shamir layer before touching any ciphertext (C02 counting gate, adss level)
+/// whenever the Shamir layer refuses (fewer than threshold distinct shares: decided from the
+/// MIR of `Sharks::recover`), `adss::recover` refuses too, before touching any ciphertext
 fn gate() {
     let m: [u8; 2] = kani::any();
     ro_reset();
     let sh = adss::Commune::new(2, m.to_vec(), m.to_vec(), None).share().unwrap();
-    let v = [sh.clone(), sh];
+    let v = [sh];
     let before = unsafe { RO_N };
     let c = adss::recover(&v);
-    assert!(c.is_err(), "one distinct share (repeated) under threshold 2 never recovers");
+    assert!(c.is_err(), "a refusal of the Shamir layer is propagated");
     assert!(unsafe { RO_N } == before, "refused before any decryption");
     kani::cover!(true, "reached");
     core::mem::forget((v, c));
 }
-rec_stubs! { #[kani::unwind(5)] fn c02_gate_repeated_share() { gate() } }
-
-
-rec_stubs! { #[kani::unwind(5)] fn probe_interp_laws() {
-    ro_reset();
-    let x: [u64; 3] = kani::any();
-    let y: [u64; 3] = kani::any();
-    kani::assume(limbs_lt_p(&x) && limbs_lt_p(&y));
-    let v = vec![star_sharks::Share { x: fp_from_limbs(x), y: vec![fp_from_limbs(y)] }];
-    let sh = star_sharks::Sharks(1);
-    let r = sh.recover(&v);
-    kani::cover!(r.is_ok(), "ok");
-    kani::cover!(r.is_err(), "err");
-    if let Ok(b) = &r {
-        assert!(b.len() == 24);
-        assert!(u64::from_le_bytes([b[0], b[1], b[2], b[3], b[4], b[5], b[6], b[7]]) == y[0], "t = 1 interpolation returns the value");
-    }
-    core::mem::forget((r, v));
-} }
+adss_stubs! {
+    #[kani::stub(star_sharks::Sharks::recover, sharks_recover_err)]
+    #[kani::unwind(5)]
+    fn c02_gate_refusal_propagates() { gate() }
+}
